@@ -336,9 +336,12 @@ class Evaluator:
             if name in ("zeros", "ones", "empty", "full") and args:
                 shp = self.np_shape_arg(args[0], env)
                 init = ("zeros",) if name == "zeros" else ("const", 1) if name == "ones" else None
-                if name == "full" and len(args) > 1:
-                    c = const_value(args[1])
-                    init = ("const", c) if c is not None else None
+                if name == "full" and (len(args) > 1 or "fill_value" in kw):
+                    fv = args[1] if len(args) > 1 else kw["fill_value"]
+                    c = const_value(fv)
+                    if c is None and isinstance(fv, ast.UnaryOp) and isinstance(fv.op, ast.USub) and const_value(fv.operand) is not None:
+                        c = -const_value(fv.operand)
+                    init = (("zeros",) if c == 0 and not isinstance(c, bool) else ("const", c)) if c is not None else None
                 return Val(shape=shp, init=init, fresh=True, desc=f"np.{name}(..)")
             if name in ("zeros_like", "ones_like", "empty_like") and args:
                 v = self.ev(args[0], env)
